@@ -1915,6 +1915,11 @@ def project_by_dykstra(weights,
     joint_monotonicities = []
   if joint_unimodalities is None:
     joint_unimodalities = []
+  # Constraints are used as dictionary keys below: lists (e.g. after a JSON
+  # config round trip) must become tuples.
+  monotonic_dominances = [tuple(c) for c in monotonic_dominances]
+  range_dominances = [tuple(c) for c in range_dominances]
+  joint_monotonicities = [tuple(c) for c in joint_monotonicities]
   if units > 1:
     lattice_sizes = list(lattice_sizes) + [int(units)]
     monotonicities = monotonicities + [0]
